@@ -224,6 +224,8 @@ def call(ev, name, args, kwargs, lineno, env):
         if not is_array(a):
             raise Unsupported("np.isin scalar")
         af = a.f
+        if isinstance(a, Comp):
+            return Comp(a.mask, lambda j: member(coll, af(j)), "b")
         return Arr(a.n, lambda j: member(coll, af(j)), "b")
     if name == "concatenate":
         parts = args[0]
